@@ -1,12 +1,18 @@
 ---------------------------- MODULE Trace_Work ----------------------------
-(* Judge of the work records of C01: one record per input length with the largest number of
-   input operations any configuration needed for an input of that length.                      *)
+(* Judge of the work records of C01: one WORK record per input length with the largest number of
+   input operations any configuration needed for an input of that length, and one SCALE record
+   per (input family, interface) with the CPU time at two sizes.                               *)
 EXTENDS YWork, Json, IOUtils, TLC, Sequences
 Rec == ndJsonDeserialize(IOEnv.TRACE)
 VARIABLE l
 Init == l = 1
 Next == /\ l <= Len(Rec)
-        /\ IF WorkOK(Rec[l].len, Rec[l].work) THEN TRUE ELSE PrintT(<<"REJECT", l, "work exceeds the linear bound">>)
+        /\ IF Rec[l].k = "SCALE"
+           THEN (IF Rec[l].died THEN PrintT(<<"REJECT", l, "the process died">>)
+                 ELSE IF Rec[l].timed_out THEN PrintT(<<"REJECT", l, "did not finish within 16 times the time the linear bound allows">>)
+                 ELSE IF ScaleOK(Rec[l].len1, Rec[l].t1us, Rec[l].len2, Rec[l].t2us) THEN TRUE
+                 ELSE PrintT(<<"REJECT", l, "CPU time grows faster than the input">>))
+           ELSE IF WorkOK(Rec[l].len, Rec[l].work) THEN TRUE ELSE PrintT(<<"REJECT", l, "work exceeds the linear bound">>)
         /\ l' = l + 1
 AllJudged == (l = Len(Rec) + 1) => PrintT(<<"JUDGED", Len(Rec)>>)
 ============================================================================
